@@ -338,7 +338,7 @@ def rule_bool(ctx):
       for e in b.events:
         if e.kind in ("assign",) and e.data["name"] == wv:
           v = e.data["value"]
-          if not (isinstance(v, Const) and isinstance(v.v, bool)):
+          if not boolean_valued(v):
             probs.append("accumulator assigned a non-boolean: %s" % norm(e.node))
     raises = [e for e in b.events if e.kind == "raise"]
     for e in raises:
@@ -409,6 +409,9 @@ def check_seeds(repo, ec_methods):
               for x in ast.walk(t):
                 if isinstance(x, ast.Name):
                   Tn.add(x.id)
+        elif isinstance(n, ast.Call) and isinstance(n.func, ast.Attribute) and n.func.attr in ("append", "extend", "insert", "add") and isinstance(n.func.value, ast.Name):
+          if any(has_pp(a_) or any(isinstance(x, ast.Name) and x.id in Tn for x in ast.walk(a_)) for a_ in n.args):
+            Tn.add(n.func.value.id)
     for n in ast.walk(fn):
       if isinstance(n, ast.Call) and isinstance(n.func, ast.Attribute) and n.func.attr in ec_methods and not (isinstance(n.func.value, ast.Name) and n.func.value.id in ("util", "ec_util")):
         ps = [a.arg for a in ec_methods[n.func.attr].node.args.args if a.arg != "self"]
@@ -509,3 +512,21 @@ def canonical_z(cls, d, facts):
         if not ok:
           return False
   return True
+
+
+def boolean_valued(v):
+  """bool constants, comparisons / boolean operators (condition trees) and bool()/any()/all()/isinstance() results."""
+  if isinstance(v, Const):
+    return isinstance(v.v, bool)
+  if isinstance(v, tuple):
+    return True
+  if isinstance(v, Seq):
+    return False
+  a = as_poly(v).as_atom()
+  if a is None:
+    return False
+  if a.kind in ("bool", "any", "all", "isinstance", "not"):
+    return True
+  if a.kind == "ite" and len(a.args) == 3:
+    return boolean_valued(a.args[1]) and boolean_valued(a.args[2])
+  return False
